@@ -18,6 +18,9 @@ CHECKS = {
  "C03": (MC, HIST + "; per-txid delivery monitor as oracle",
          "All histories up to depth 4 (thorough 6) of how relevant/child/irrelevant txs reach the node (trusted/untrusted inv and tx, getdata answers, local submission, blocks, restart, crash): HandleTx at most once per handler and txid, completeness, no irrelevant delivery, spent outputs per input, identical handler streams.",
          NOTE_NODE, "DESIGN.md §4 C03"),
+ "C04": (MC, "bounded-exhaustive enumeration of block shapes through the real in-sync node; independent merkle verifier",
+         "Block sizes 1..9 (17), every subset of relevant positions for n<=6 (8) and all singletons/pairs above, previously delivered or not; corrupted bodies (drop/insert/swap/alter) under an unchanged header for n<=5 (7), served in sync and during initial sync: proof path + duplicated levels hash to the header's root, true index, depth 0, new vs update; corrupted blocks never advance the chain or deliver anything.",
+         NOTE_NODE + " Duplicate-tail malleability (corruptions that keep the root) is not asserted.", "DESIGN.md §4 C04"),
  "C05": (MC, "explicit-state BFS on the real MemPool vs map[outpoint]set<txid> (component) + " + HIST + " (node level)",
          "Component: every operation sequence up to depth 5 (7) over add/remove/conflicting/request/tick on 5 (7) txs with forced outpoint collisions, compared with a reference index. Node: all histories up to depth 4 (6) of arrival orders/sources/evictions; each relevant member of a conflicting pair reported unsafe, never safe afterwards, no spurious unsafe.",
          NOTE_NODE, "DESIGN.md §4 C05"),
@@ -27,9 +30,15 @@ CHECKS = {
  "C07": (MC, HIST + " with virtual clock; state-trajectory oracle + liveness phase from every state",
          "All histories up to depth 4 (6) mixing untrusted/trusted announcements, conflicts, clock steps around the 2000 ms safe delay, confirmation, local submission, restart; invariants on every per-txid state sequence and safe-within-bound when warranted.",
          NOTE_NODE, "DESIGN.md §4 C07"),
+ "C15": (MC, "bounded-exhaustive enumeration of field boundary values through the real codec (encode, decode, re-encode, prefixes, concatenations)",
+         "428 values over all 37 payload types (product of per-field boundary domains): exact byte consumption, identical re-encoding, structural equality, type tables; every strict prefix fails with an error; all ordered pairs/triples of representatives decode as a stream.",
+         "Dependency-typed fields compared through their own encoding.", "DESIGN.md §4 C15"),
  "C19": (MC, "stateless schedule exploration of the real Node.Run with one deviation (Stop / connection close / reset / stall / pre-emption) inserted at every scheduling point of scripted baselines",
          "Five baselines (cold start with sync+txs+block, refused dials, in sync with an untrusted peer, scripted connection loss, scripted Stop with concurrent application calls); at every scheduling point one deviation; Run/Stop return within retry delay + 4 s virtual time, no thread left, no callback after Stop, storage equals memory, reconnect converges without re-announcing.",
          NOTE_NODE + " Deviation bound 1 over scripted baselines (some baselines script a first event so that two-event races are covered); atomics are not scheduling points.", "DESIGN.md §4 C19"),
+ "C08": (MC, "bounded-exhaustive enumeration of scripts / subscription sequences on the real Node.IsRelevant vs an independent tokenizer and multiset",
+         "Every sequence of <=3 (4) tokens from a 26-token alphabet and every byte prefix of each script, in output 0/1 and input 0/1; every subscribe/unsubscribe sequence <=4 (5); contract flag x action kinds.",
+         "Payload universe of 5 values; OP_1..16/OP_1NEGATE treated as one-byte pushes on both sides.", "DESIGN.md §4 C08"),
  "C09": (MC,
          "bounded-exhaustive enumeration of operation sequences on the real BlockRepository vs a reference slice (explicit enumeration, no sampling)",
          "Every sequence of <=3 (thorough: <=4) macro operations {add, grow to boundary, revert to boundary, save, save+reload} over the 1000-header file boundaries is executed on the real block repository over an in-memory store (both delete-missing behaviours) and every by-height / by-hash / tip / range query is compared with a reference list after every step.",
@@ -41,12 +50,18 @@ CHECKS = {
  "C11": (MC, HIST + " with clean restart events",
          "All histories up to depth 4 (6) with Stop + new Node on the same store at any quiescent point: no re-delivery, confirmation after restart is an update with proof, safe not repeated, flags sticky, GetTx returns the delivered tx.",
          NOTE_NODE, "DESIGN.md §4 C11"),
+ "C12": (MC, "differential " + HIST + ": each history is executed with and without its untrusted events",
+         "All histories up to depth 4 (5) over trusted events and raw untrusted-connection messages (header shapes, inv, tx, blocks incl. a forged body for an outstanding request, addr, garbage): final chain, HandleHeaders sequence and confirmations identical, safe set may only shrink, nothing requested from / delivered because of an unverified peer.",
+         NOTE_NODE + " One untrusted connection.", "DESIGN.md §4 C12"),
  "C13": (MC, "explicit-state BFS on the real state.State vs a two-FIFO reference model",
          "Every operation sequence up to depth 6 (9) over announce/deliver(small, 60 MB)/pop/next-request/clear-all/clear-after/set-last on a tree with two forks; return values, counts, last hash and buffered-byte accounting compared after every step.",
          "Fake block bodies (size only); component level (the wire-level order of getdata is exercised by C01's histories).", "DESIGN.md §4 C13"),
  "C14": (MC, HIST + " with virtual clock; oracle over timestamped getdata(tx) on all connections",
          "All histories up to depth 4 (6) of overlapping inv announcements from the trusted and two verified untrusted connections, deliveries, silence, pings, 1 s/3.1 s steps, confirmation: one request per 3 s window, none after the body/block, re-request from another announcer after the window.",
          NOTE_NODE, "DESIGN.md §4 C14"),
+ "C20": (MC, "exhaustive enumeration of hostile splices over valid encodings, each decoded in a memory-limited worker process",
+         "Up to 4 encodings of each of the 37 payload types and 6 kinds of stored record: every byte offset overwritten by each of 16 hostile counts/lengths (with and without truncation) plus all strings <=3 (4) over 8 bytes behind every type code: no panic, allocation <= 512*len+256KiB, process survives. Five open known findings, all inside the dependency tokenized/pkg (wire.MsgTx decoding, Signature.Deserialize).",
+         "Allocation measured by runtime counters; 3 GB address-space limit per worker.", "DESIGN.md §4 C20"),
 }
 
 PENDING_REASON = "check not built yet in this round (planned: see DESIGN.md §4); not claimed until it runs"
